@@ -107,7 +107,7 @@ def _indent_keep_text(elem, level=0):
 def envelope(message_id, body, mos_id='MOS ID', ncs_id=None, extra=(), root_attrib=None,
              body_first=False):
     root = E('mos', attrib=root_attrib)
-    parts = [E('mosID', mos_id)]
+    parts = [E('mosID', mos_id)] if mos_id is not None else []      # mos_id=None: envelope without <mosID>
     if ncs_id is not None:
         parts.append(E('ncsID', ncs_id))
     parts.append(E('messageID', str(message_id)))
